@@ -53,6 +53,8 @@ func checkC16(run *Run, res *Result) {
 	assigned := map[int]map[int]bool{}
 	rebalances := map[int]int{}
 	inAck := map[vbKey]bool{}
+	loading := map[int]bool{}
+	openingSess := map[int]bool{}
 	for i := range run.Evs {
 		e := &run.Evs[i]
 		k := vbKey{e.M, e.Vb}
@@ -66,8 +68,11 @@ func checkC16(run *Run, res *Result) {
 					}
 				}
 				assigned[e.M] = map[int]bool{}
+				loading[e.M] = true
+				openingSess[e.M] = true
 			case "AfterStreamStart":
 				open[e.M] = true
+				openingSess[e.M] = false
 			case "BeforeStreamStop":
 				open[e.M] = false
 			case "AfterRebalanceEnd":
@@ -87,6 +92,10 @@ func checkC16(run *Run, res *Result) {
 						c.high[int(e.L[j])] = e.L[j+1]
 					}
 				}
+			}
+		case journal.KReq:
+			if e.S == "CMD_DCPSTREAMREQ" {
+				loading[e.M] = false // the offsets were loaded before the first stream request was issued
 			}
 		case journal.KSReq:
 			if e.S2 != "ok" || e.Off == nil {
@@ -128,8 +137,8 @@ func checkC16(run *Run, res *Result) {
 		case journal.KAckEnd:
 			inAck[k] = false
 		case journal.KTrack:
-			if e.Off == nil {
-				continue
+			if e.Off == nil || loading[e.M] || !open[e.M] && !openingSess[e.M] {
+				continue // closed window / offsets not loaded yet: whatever is tracked there is discarded by the load
 			}
 			v := get(k)
 			if !v.have || e.Off.Seq >= v.off.seq {
